@@ -177,6 +177,15 @@ func run(c *core.Ctx) {
 		// also as the content of a string argument and after a field
 		visitText("bytes-after-field", nil, append(append([]byte("{ a "), text...), " b }"...))
 	})
+	// (b') character units: multi-byte characters as single units (valid UTF-8 only)
+	maxUnits := c.Pick(5, 6)
+	c.R.Bounds["character_units"] = maxUnits
+	langx.Units(maxUnits, c.Shard, c.NShards, func(text []byte) {
+		if bad, fid := JudgeLex(text); bad != "" {
+			c.Mismatch(fid, "lex "+sigOf(bad, ""), fmt.Sprintf("lexing %q: %s", text, bad), map[string]interface{}{"text": string(text), "lex": true})
+		}
+		visitText("units-in-braces", nil, append(append([]byte("{ a "), text...), " b }"...))
+	})
 	// (c) literal payloads: every short content of a block string and of a string
 	payload := func(kind string, alphabet []string, maxLen int, open, close string) {
 		buf := []string{}
